@@ -859,6 +859,15 @@ def substr(term, depth=0):
             base = substr(a[0], depth + 1) or (subj, ZERO, LEN)
             lo = _search_pos(rg[2][0], subj) if rg[1] in ("Range", "RangeFrom") else ZERO
             hi = _search_pos(rg[2][1 if rg[1] == "Range" else 0], subj) if rg[1] in ("Range", "RangeTo") else LEN
+            if lo is not None and hi is None and rg[1] in ("Range", "RangeTo") and (lo == ZERO or lo[0] == "const"):
+                # part[c1 .. part.len() - c2] of a part that ends at a searched position: the end moves back by c2
+                h = strip_refs(rg[2][1 if rg[1] == "Range" else 0])
+                if isinstance(h, tuple) and h and h[0] == "binop" and h[1] == "Sub" and const_int(h[3]) is not None and is_call(strip_refs(h[2]), "::len") \
+                        and content(call_args(strip_refs(h[2]))[0]) == subj and base[2] != LEN and isinstance(base[2], tuple) and base[2][0] in ("find", "rfind"):
+                    S0, a0, b0 = base
+                    st = a0 if lo == ZERO else (lo if a0 == ZERO else (("const", a0[1] + lo[1]) if a0[0] == "const" else ((a0[0], a0[1], a0[2] + lo[1]) if a0[0] in ("find", "rfind") else None)))
+                    if st is not None:
+                        return (S0, st, (b0[0], b0[1], b0[2] - const_int(h[3])))
             if lo is not None and hi is not None:
                 if all(x in (ZERO, LEN) or x[0] == "const" for x in (lo, hi)):
                     return _compose(base, (lo, hi))      # a pure offset into a part: still a part of the outer subject
@@ -1144,6 +1153,62 @@ def quantifier(ctx, key, paths=None):
         before = [c for c in backs[0].conds() if c.bb != h][:]
         before = before[:[j for j, c in enumerate(backs[0].conds()) if c.term == drv[0].term][0]]
         return dict(kind=kind, coll=_iter_source(call_args(nx)[0]), pred=pred, neg=neg, form="loop", before=before)
+    return None
+
+
+def element_test(ctx, key, paths=None):
+    """Like quantifier(), for a per-element test that branches (e.g. `compile the candidate; if that worked, match it`): the normal form is
+         dict(kind='any'|'all', coll=<collection term>, form='loop'|'combinator', elem=<term of the element>, before=[conditions before the quantifier],
+              alts=[dict(facts=[(term, fact)], value=True|False|<bool term>)])   one alternative per way of processing an element
+       `value` is the element's verdict on that alternative (any: true = this element makes the answer true)."""
+    paths = paths if paths is not None else ctx.paths(key)
+    body = ctx.body(key)
+    if not paths or body is None:
+        return None
+    rets = ret_paths(paths)
+    for p in rets:
+        t = strip_refs(p.end[1])
+        if is_call(t, "Iterator>::all", "Iterator>::any", "::all", "::any") and len(call_args(t)) == 2:
+            kind = mir.norm_path(t[1]).rsplit("::", 1)[-1]
+            clo = strip_refs(call_args(t)[1])
+            pe = mir.PathEval(ctx.fx, body, inline=ctx.inline_set, desugar=True)
+            alts = []
+            for (_ev, fs, v) in pe._apply(clo, (ELEM,), 0):
+                if v is None:
+                    return None
+                cv = const_of(v)
+                alts.append(dict(facts=list(fs), value=cv if isinstance(cv, bool) else v))
+            raw = call_args(t)[0]
+            return dict(kind=kind, coll=_iter_source(raw), form="combinator", elem=ELEM, before=list(p.conds()), alts=alts)
+    for h in sorted(body.loops):
+        drv = [c for p in paths for c in p.conds() if c.term[0] == "discr" and is_call(strip_refs(c.term[1]), "::next") and strip_refs(c.term[1])[4] == h]
+        if not drv:
+            continue
+        nx = strip_refs(drv[0].term[1])
+        inloop = [p for p in rets if any(c.term == drv[0].term and c.fact == ("eq", 1) for c in p.conds()) and const_of(p.end[1]) in (True, False)]
+        after = [p for p in rets if any(c.term == drv[0].term and c.fact == ("eq", 0) for c in p.conds()) and const_of(p.end[1]) in (True, False)]
+        backs = [p for p in paths if p.end[0] == "back" and p.end[1] == h]
+        inloop = [p for p in inloop if p not in after]
+        if not inloop or not after or not backs:
+            continue
+        early = {const_of(p.end[1]) for p in inloop}
+        late = {const_of(p.end[1]) for p in after}
+        if len(early) != 1 or len(late) != 1 or early == late:
+            continue
+        kind = "all" if early == {False} else "any"
+
+        def body_conds(p):
+            cs = p.conds()
+            i = max(j for j, c in enumerate(cs) if c.term == drv[0].term)
+            return cs[i + 1:]
+        alts = []
+        for p in inloop:
+            alts.append(dict(facts=[(c.term, c.fact) for c in body_conds(p)], value=(kind == "any")))
+        for p in backs:
+            alts.append(dict(facts=[(c.term, c.fact) for c in body_conds(p)], value=(kind != "any")))
+        cs0 = backs[0].conds()
+        before = cs0[:[j for j, c in enumerate(cs0) if c.term == drv[0].term][0]]
+        return dict(kind=kind, coll=_iter_source(call_args(nx)[0]), form="loop", elem=("field", ("downcast", nx, "Some"), 0, "0"), before=list(before), alts=alts)
     return None
 
 
